@@ -121,6 +121,13 @@ func checkFrame(c frameCase) evid.Outcome {
 	} else if f.MType != ref.MTProprietary {
 		nt = true
 	}
+	// results the caller keeps: every slice an encoder returned is held until the end of the case
+	type heldOut struct {
+		what string
+		b    []byte
+		c    []byte
+	}
+	var held []heldOut
 	for variant := 0; variant < 3; variant++ {
 		asCmds := variant != 1
 		// variant 2: absent FOpts / FRMPayload given as empty non-nil slices (the same frame value)
@@ -139,6 +146,7 @@ func checkFrame(c frameCase) evid.Outcome {
 		if err != nil || string(txt) != base64.StdEncoding.EncodeToString(want) {
 			return evid.Fail("MarshalText gives %q (err %v), want base64 of %x", txt, err, want)
 		}
+		held = append(held, heldOut{"MarshalBinary", b, append([]byte{}, b...)}, heldOut{"MarshalText", txt, append([]byte{}, txt...)})
 		if f.MType == ref.MTJoinAccept {
 			continue // decoded below, through the encrypted form
 		}
@@ -204,6 +212,24 @@ func checkFrame(c frameCase) evid.Outcome {
 			}
 			if d := sameFrame(f, g); d != "" {
 				return evid.Fail("join-accept round trip: %s", d)
+			}
+		}
+	}
+	// other frames are encoded (binary and text) while the caller still holds the results from above
+	for i := range dirty {
+		var q lorawan.PHYPayload
+		if err := q.UnmarshalBinary(append([]byte{}, dirty[i]...)); err != nil {
+			return evid.Fail("harness: dirty frame %d does not decode: %v", i, err)
+		}
+		if ob, err := q.MarshalBinary(); err != nil || !bytes.Equal(ob, dirty[i]) {
+			return evid.Fail("the frame decoded from %x encodes to %x (err %v) right after the frame %x was encoded", dirty[i], ob, err, want)
+		}
+		if _, err := q.MarshalText(); err != nil {
+			return evid.Fail("MarshalText of the frame decoded from %x: %v", dirty[i], err)
+		}
+		for _, h := range held {
+			if !bytes.Equal(h.b, h.c) {
+				return evid.Fail("the slice returned by %s read %x; after the frame %x was encoded it reads %x (an earlier result changes under a later call)", h.what, h.c, dirty[i], h.b)
 			}
 		}
 	}
@@ -297,6 +323,6 @@ func TestProp(t *testing.T) {
 		}, checkFrame)
 
 	evid.Rapid(r, t, "frames",
-		"rapid: MType uniform over the 8 types; data frames with all FCtrl flags, boundary-biased 32-bit FCnt, FOpts = generated command sequence of a drawn exact length 0..15, FPort absent/0/1..255, FRMPayload 0..242 bytes (commands on port 0); join-request, rejoin 0/1/2, join-accept (CFList absent/channels/masks, through encrypt->decode->decrypt), proprietary. Oracle: encoder output == wire model; decode (binary and base64) + command decode gives a frame standing for the same bytes, also when decoded into a PHYPayload variable that decoded another frame before; a decoded data frame whose FOpts are then replaced by another command sequence (another length) encodes to the wire model of the changed frame. Non-trivial: data frame with FOpts, FPort and >16 payload bytes, or join/rejoin, or join-accept with CFList.",
+		"rapid: MType uniform over the 8 types; data frames with all FCtrl flags, boundary-biased 32-bit FCnt, FOpts = generated command sequence of a drawn exact length 0..15, FPort absent/0/1..255, FRMPayload 0..242 bytes (commands on port 0); join-request, rejoin 0/1/2, join-accept (CFList absent/channels/masks, through encrypt->decode->decrypt), proprietary. Oracle: encoder output == wire model; decode (binary and base64) + command decode gives a frame standing for the same bytes, also when decoded into a PHYPayload variable that decoded another frame before; a decoded data frame whose FOpts are then replaced by another command sequence (another length) encodes to the wire model of the changed frame; every slice MarshalBinary / MarshalText returned is kept while three other frames are encoded and must still read what it read. Non-trivial: data frame with FOpts, FPort and >16 payload bytes, or join/rejoin, or join-accept with CFList.",
 		120000, 6000000, genFrame, checkFrame)
 }
